@@ -27,6 +27,7 @@ func init() {
 		Stub:           []string{"kernel sockets (UDP queue / simulated TCP connections with a fault layer)", "the meter firmware (harness writes energy_data.csv)"},
 		Assumptions:    []string{"readings fit 32 signed bits (the property's own restriction)", "the coverage claim is about the server contacted by the final sync round"},
 		RequiredProbes: []string{"c08.recovered-by-retransmission", "c08.negative-reading", "c08.sentinel-reading", "c08.sync-failed-before", "c08.rotation", "c08.server-restart", "c08.dup-retransmission"},
+		RequiredSites:  []string{"send.wake", "send.tick", "csync.start", "csync.wake", "csync.resend", "report.after-write"},
 	})
 }
 
@@ -247,6 +248,7 @@ func runC08(m *Sim) {
 			recovered++
 		}
 	}
+	m.NoteState(len(have), len(lost), recovered, snap.Offset, ns)
 	if recovered > 0 {
 		m.Probe("c08.recovered-by-retransmission")
 		m.Probe("nontrivial")
